@@ -180,6 +180,10 @@ def census_operators(ctx, model):
                         bad.append("local closure handed to %s at %s" % (cal, e.loc))
                     if cal.startswith(("std::thread::", "std::process::", "std::sync::mpsc::")):
                         bad.append("call of %s at %s" % (cal, e.loc))
+                    # a reference count is a runtime quantity no lemma models: a decision made on it is outside
+                    # every accepted form (round 9, T01a: interval's task stopped when it held the last handle)
+                    if cal.endswith(("::strong_count", "::weak_count")) and ("Arc::<" in cal or "Rc::<" in cal or "Weak::<" in cal):
+                        bad.append("reference count observed by %s at %s" % (cal, e.loc))
         ctx.ob("CEN-call", "%s:CEN-call" % v.name, not bad, "%d library calls, all to known pure functions" % n if not bad else "; ".join(bad[:3]), v.loc(v.op.id))
         ok = ok and not bad
     census_core(ctx, model)
